@@ -520,6 +520,12 @@ def parse_template(text):
                 buf = []
             items.append(('const', parse_kv(st[len('//@const '):])))
             i += 1
+        elif st.startswith('//@item '):
+            if buf:
+                items.append(('text', '\n'.join(buf) + '\n'))
+                buf = []
+            items.append(('item', parse_kv(st[len('//@item '):])))
+            i += 1
         elif st.startswith('//@lift '):
             if buf:
                 items.append(('text', '\n'.join(buf) + '\n'))
@@ -1002,6 +1008,43 @@ def build_unit(template_path, repo, canary=False, include_root=None):
         if kind_ == 'text':
             t = val[:-1] if val.endswith('\n') else val
             emit_text(t)
+        elif kind_ == 'item':
+            # L6: an `enum` / `struct` definition copied from the source; doc comments and attribute lines are dropped
+            # (derive lists are re-stated in the directive), `pub(crate)` becomes `pub`.  Variants, discriminants,
+            # field names, field order and field types are the repo's.
+            path = os.path.join(repo, val['file'])
+            if not os.path.exists(path):
+                raise LiftError("source file %s missing" % val['file'])
+            src = open(path, encoding='utf-8').read()
+            km = mask(src)
+            ms = list(code_finditer(src, km, r'\b' + val['kind'] + r'\s+' + re.escape(val['name']) + r'\b'))
+            if len(ms) != 1:
+                raise LiftError("%s %s found %d times in %s" % (val['kind'], val['name'], len(ms), val['file']))
+            a = ms[0].start()
+            b = src.index('{', a)
+            while km[b] != CODE:
+                b = src.index('{', b + 1)
+            e = match_close(src, km, b)
+            raw = src[a:e + 1]
+            kept = []
+            for ln in raw.split('\n'):
+                st2 = ln.strip()
+                if st2.startswith('///') or st2.startswith('//') or st2.startswith('#['):
+                    continue
+                kept.append(ln.replace('pub(crate) ', 'pub '))
+            text = 'pub ' + '\n'.join(kept)
+            if val.get('derive'):
+                text = '#[derive(%s)]\n' % val['derive'] + text
+            for old_t, new_t in [x.split('=>') for x in val.get('retype', '').split(';') if '=>' in x]:
+                text = text.replace(old_t.strip(), new_t.strip())
+            ln0 = src.count('\n', 0, a) + 1
+            first = len(out_lines) + 1
+            for k2, tl in enumerate(text.split('\n')):
+                out_lines.append((tl, val['file'], ln0 if k2 == 0 else None))
+            infos.append({'name': '%s %s' % (val['kind'], val['name']), 'file': val['file'], 'fn': val['name'], 'gen_fn': None, 'impl': None,
+                          'rules': {'L6': 1}, 'subs': [], 'woven': [], 'labels': {}, 'span': '%s:%d-%d' % (val['file'], ln0, src.count('\n', 0, e) + 1),
+                          'sha256': hashlib.sha256(raw.encode()).hexdigest(), 'gen_lines': [first, len(out_lines)],
+                          'is_canary': False, 'is_const': True})
         elif kind_ == 'const':
             # L5: a `const NAME: T = V;` item copied verbatim (visibility dropped)
             path = os.path.join(repo, val['file'])
